@@ -110,6 +110,13 @@ CLAIMED.update({
    note="scoreboard hazards, SIMM16 field ranges and memory-latency schedules are not decided; one defect (completed wavefronts not counted as arrived at a barrier, both modes) found and repaired by a fix: commit"),
 })
 
+CLAIMED.update({
+ "C02": dict(
+   text="Four necessary conditions of functional transparency of timing mode, decided structurally: architectural state of timing wavefronts is changed only through the shared emulation ALU (who-may-call with a frozen allow-list; ALU obtained only from emu.NewALU or the injected factory); the initial-register code of the two modes is reduced to comparable summaries (enable flag, bytes reserved, value; lane-id registers incl. the V5 packed form); the SMEM and FLAT opcode sets of both ALUs and of the timing units agree, including dedicated write-back cases for loads whose emulation handler transforms the bytes; cache flushes precede copies that touch dirty buffers. Equality of final memory and PC traces is a runtime quantity and is not decided.",
+   ref="4/C02", technique="who-may-call on SSA, summaries of sibling functions from the type-checked syntax (SIBLINGS), opcode-set comparison of dispatch switches (TABLE), must-pass path analysis",
+   note="coalescer and write-back value correctness, scoreboard hazards, caches and DRAM are not decided; three defects (s_load_dwordx16, flat_load_sbyte write-back, V5 packed ids in timing) repaired by fix: commits; two SGPR-reservation divergences recorded as known findings"),
+})
+
 PENDING = {}
 
 NOT_APPLICABLE = {
